@@ -225,6 +225,8 @@ func formCatalogue() []formCase {
 			formCase{"in-embedded-only-" + ln, []Reg{mkReg("Leaf_S0_a", l), mkReg("InEmb_S5", l)}},
 			formCase{"in-opt-added-after-first-build-" + ln, []Reg{mkReg("InU_3_4_Opt", l), mkReg("PosA_2_0", l)}},
 			formCase{"group-extended-after-first-build-" + ln, []Reg{mkReg("InU_3_4_Group", l), mkReg("Leaf_K2_b", l, withGroup("g")), mkReg("Leaf_K2_c", l, withGroup("g"))}},
+			formCase{"in-tag-values-with-spaces-" + ln, []Reg{mkReg("Leaf_K1_a", l, withName("a b")), mkReg("Leaf_K1_b", l), mkReg("Leaf_K2_a", l, withGroup("g h")), mkReg("Leaf_K2_b", l, withGroup("g h")), mkReg("Leaf_K2_c", l), mkReg("InSp_K0", l)}},
+			formCase{"out-tag-values-with-spaces-" + ln, []Reg{mkReg("OutSp_K1K2", l), mkReg("Leaf_K1_c", l), mkReg("Leaf_K2_c", l, withGroup("g h")), mkReg("InSp_K0", l)}},
 			formCase{"in-keyed-" + ln, []Reg{mkReg("Leaf_K1_c", l, withName("k")), mkReg("InU_3_2_Keyed", l)}},
 			formCase{"in-opt-present-" + ln, []Reg{mkReg("PosA_2_0", l), mkReg("InU_3_4_Opt", l)}},
 			formCase{"in-opt-absent-" + ln, []Reg{mkReg("InU_3_5_Opt", l)}},
